@@ -19,7 +19,10 @@ RULE = ("(border) oriented manifold polygon surfaces: quad/tri/mixed grids and c
         "also given as numpy ints, an unrelated second mesh is processed in between). Size regime (border_huge): strips, ladders with "
         "/ without chords, open fans, one polygon, thin annuli with border loops of 1e3 .. 6.6e4 vertices (most between 10050 and "
         "20500), three drawn starts + the same fresh-mesh calls + a short sequence; features_huge: roofs of 600-2000 cells. "
-        "non-trivial = >= 2 border loops (huge: a loop of > 1000 vertices). "
+        "Every case also draws the library-wide switches display_duplicate_attribute_warning / export_edges_in_obj / "
+        "complete_faces_from_cells / sort_neighborhoods (border walks are asserted with unsorted neighbourhoods too, see "
+        "ASSUMPTIONS), the form of the faces (lists, tuples, numpy rows of int64 / int32 / int16 / uint8) and checks that no call "
+        "changes a switch. non-trivial = >= 2 border loops (huge: a loop of > 1000 vertices). "
         "(features) meshes built so that the angle between adjacent face normals is prescribed: a seed (single triangle / regular "
         "n-gon pyramid with one prescribed angle on all its interior edges / 'roof' = extruded profile polyline of planar trapezoid "
         "panels, kept as quads or split, with prescribed ridge angles and deleted cells) + up to 20 triangles folded onto free border "
@@ -30,12 +33,17 @@ RULE = ("(border) oriented manifold polygon surfaces: quad/tri/mixed grids and c
         "(hard edges); detector options only_border x flag_corners x corner_order 1..8 x feature graph on/off, optional pre-computed "
         "'normals' attribute, verbose on/off, optional second run with other options on the same mesh, optional re-run of the SAME detector object, optional "
         "in-place move of the mesh vertices (anisotropic stretch) followed by a run of the same / a new detector, optional border "
-        "extraction calls before and after the detector on the same mesh. Expected edge set from own Newell normals. "
+        "extraction calls before and after the detector on the same mesh; sort_neighborhoods on/off and duplicate-attribute switch on/off; "
+        "data 1e3 / 1e6 element sizes away from the origin (dot tolerance 1e-9 + 2e-15 x distance/edge length); option values as "
+        "numpy scalars; corner_order also 7, 12, 16, 24, 61, 100; a detector call that raises (PolyLine) before the real run. Expected edge set from own Newell normals. "
         "non-trivial = some interior edge has an angle within 1e-2 degree of 36.87 or 60 degrees. distinct = distinct realised cases.")
 ASSUMPTIONS = [
     "input surfaces are oriented manifolds with a simple 1-skeleton (no bow-tie vertices), faces planar and non-degenerate "
     "(min angle >= 8 degrees in generated feature meshes)",
-    "config.sort_neighborhoods is ON (the default); the border walk documents nothing with it off",
+    "border oracles are asserted with config.sort_neighborhoods on AND off (with it off the pinned library's walk was wrong on about a "
+    "quarter of the meshes: finding F-C15-3, fixed in /repo by 4276f12; C15_ASSERT_UNSORTED_BORDER=0 switches the off-case back to "
+    "not-applied for bisecting). The feature detector is asserted with the switch off as well",
+    "config.complete_edges_from_faces stays True (without it a surface built from faces has no edge set and no hard_edges flags)",
     "the library flags an interior edge iff dot(n1,n2) < 0.5 (strict, i.e. angle > 60 degrees; exactly 60 is NOT a feature) and a "
     "declared hard interior edge iff dot(n1,n2) < 0.8 (strict, angle > acos 0.8); edges whose own dot product lies within 1e-9 "
     "of 0.5 (resp. 0.8 when declared hard) are exempt on BOTH sides (either answer accepted)",
@@ -54,10 +62,9 @@ ASSUMPTIONS = [
 ACOS08 = math.degrees(math.acos(0.8))     # 36.8698976...
 TOL_DOT = 1e-9
 
-# The border walk of the unchanged library is only right with config.sort_neighborhoods = True (finding reported with
-# scratch/fixes/C15-3-border-walk-follows-border-edges.diff). Border cases draw the switch; it is only applied (and the same oracles
-# asserted with unsorted neighbourhoods) once this constant is set to True, i.e. once that fix is in /repo.
-UNSORTED_BORDER_ASSERTED = __import__("os").environ.get("C15_ASSERT_UNSORTED_BORDER", "0") == "1"     # default: not asserted
+# The border walk of the pinned library was only right with config.sort_neighborhoods = True (finding F-C15-3, fixed in /repo by
+# 4276f12). Border cases draw the switch and assert the same oracles with unsorted neighbourhoods.
+UNSORTED_BORDER_ASSERTED = __import__("os").environ.get("C15_ASSERT_UNSORTED_BORDER", "1") == "1"     # default: asserted
 
 CFG_KEYS = ("sort_neighborhoods", "display_duplicate_attribute_warning", "export_edges_in_obj", "complete_faces_from_cells",
             "complete_edges_from_faces")
